@@ -15,6 +15,13 @@ def oracle_cap(case, impl):
         return "only %d of %d capacity units were available after the storm (capacity not given back)" % (mx, k)
     if rep != n or probe != "ok":
         return "after the storm %d/%d rendezvous queries were answered, probe=%s" % (rep, n, probe)
+    m2 = re.search(r" mix=(\S+) mixreplied=(\d+)/(\d+)", impl)
+    if not m2:
+        return "unexpected harness output: " + impl[:120]
+    if m2.group(1) != "ok":
+        return "%s queries were processed concurrently with max-inflight-requests=%d when UDP and TCP clients are mixed (the capacity is not one pool shared by all listeners)" % (m2.group(1).split(":")[-1], k)
+    if m2.group(2) != m2.group(3):
+        return "mixed UDP/TCP rendezvous: %s/%s queries answered" % (m2.group(2), m2.group(3))
     return None
 
 SPEC = dict(
